@@ -375,9 +375,24 @@ class Interp(ExprMixin, CallMixin):
         keys_before = self.key_snapshot()
         sa = self.exec_body(st.body, a)
         keys_a = self.key_changes(keys_before)
+        # the else branch must not see keys that only the then branch defined (parser state is shared on the heap)
+        after_then = {pid: dict(p.keys) for pid, (p, _) in self.key_snapshot().items()}
+        for pid, (p, old) in keys_before.items():
+            p.keys = dict(old)
+        for p in self.parsers:
+            if id(p) not in keys_before:
+                p.keys = {}
         keys_mid = self.key_snapshot()
         sb = self.exec_body(st.orelse, b)
         keys_b = self.key_changes(keys_mid)
+        # merge: a key defined by either branch is visible afterwards (flagged "maybe" unless both define it)
+        for p in self.parsers:
+            then_keys = after_then.get(id(p), {})
+            for k, v in then_keys.items():
+                if k not in p.keys:
+                    p.keys[k] = v
+                    if sa == 'next' and sb == 'next':
+                        p.maybe.add(k)
         node.then_status, node.else_status = sa, sb
         if sa == 'next' and sb == 'next':
             self.definite_keys([keys_a, keys_b], fr)
